@@ -244,13 +244,19 @@ theorem Deribit.valueLoop_fst (c : TokenCfg) (book : List Instr) (ps : List (Str
       simp only [exact_num, NumCtx.exact_add, NumCtx.exact_mul]
       rw [ih]; simp [Deribit.markValue, hsome]; ring
 
-/-- **equity = cash + positions at mark** on an open bar (exact arithmetic) -/
-theorem C15_equity (c : TokenCfg) (s : DState) (hg : s.onGrid = true) :
+/-- **equity = cash + positions at mark** (exact arithmetic) whenever `get_market_balance` values the holdings afresh:
+    on an open bar (timestamp on the hourly grid), and on any bar when no cached valuation exists (never valued yet, or a
+    trade has dropped the cache) -/
+theorem C15_equity (c : TokenCfg) (s : DState) (hg : s.onGrid = true ∨ s.cache = none) :
     ∃ b, (getMarketBalance DCtx.exact c s).1 = .ok (.balance (some b)) ∧
       b.netValue = s.cash + Deribit.markValue c s.book s.positions ∧ b.cash = s.cash ∧
       b.premium = Deribit.markValue c s.book s.positions := by
   unfold getMarketBalance
-  simp only [hg, if_true]
+  have hc : (s.onGrid || s.cache.isNone) = true := by
+    rcases hg with h | h
+    · simp [h]
+    · simp [h]
+  simp only [hc, if_true]
   refine ⟨_, rfl, ?_, ?_, ?_⟩
   · simp only [freshBalance]
     have := Deribit.valueLoop_fst c s.book s.positions 0 0 0
@@ -532,12 +538,8 @@ theorem C15_trades_need_open_market (cx : DCtx) (c : TokenCfg) (s : DState) (r :
   constructor <;> simp [buy, sell, h]
 
 
-/-- **fills shrink the visible book for the following orders**: the next operation of the bar runs on the
-    state the previous one left (the book written back by `get_new_order_list`), whatever the outcome -/
-theorem C15_following_order_sees_shrunken_book (cx : DCtx) (c : TokenCfg) (s : DState) (o : Op) (os : List Op) :
-    runOps cx c s (o :: os) = runOps cx c (step cx c s o).2 os := rfl
-
-/-- … and the book an accepted buy leaves is the old book with the asks of that instrument rewritten: the normalised
+/-- the book an accepted buy leaves (what the following orders of the bar are checked against —
+    `C15_following_order_sees_shrunken_book`, Proofs/C15/Follow.lean) is the old book with the asks of that instrument rewritten: the normalised
     side (best first, one level per price) minus the fills -/
 theorem C15_buy_book (cx : DCtx) (c : TokenCfg) (s s' : DState) (r : Req) (fills : List Fill) (fee : Rat)
     (h : buy cx c s r = (.ok (.trade fills fee), s')) :
@@ -582,5 +584,8 @@ example : (sell DCtx.exact ethCfg (buy DCtx.exact ethCfg Deribit.exState (Deribi
 example : BookNonneg Deribit.exState.book := by
   intro i hi; simp [Deribit.exState] at hi; subst hi; simp [Deribit.exInstr]
 example : Deribit.exState.onGrid = true := by decide +kernel
+-- a closed minute of the hour (00:01) without a cached valuation: the second alternative of `C15_equity`
+example : ({ Deribit.exState with now := 361 } : DState).onGrid = false ∧ ({ Deribit.exState with now := 361 } : DState).cache = none := by
+  decide +kernel
 
 end Demeter
